@@ -71,8 +71,9 @@ type vWrite struct {
 }
 
 type vRead struct {
-	msg jsonrpc.Message
-	err error
+	msg  jsonrpc.Message
+	err  error
+	desc []any // logged as "rd.read" when the reader actually consumes the message
 }
 
 type vConn struct {
@@ -82,6 +83,7 @@ type vConn struct {
 	closed chan struct{}
 	once   sync.Once
 
+	resolve func(kind, id, cref string) string // harness names for responses (request tag) and cancel notices (call name)
 	gated   bool
 	faults  map[int]string // auto mode: outcome of the n-th write (1-based) when not "ok"
 	nwrites int
@@ -104,6 +106,9 @@ func (c *vConn) Read(ctx context.Context) (jsonrpc.Message, error) {
 		if r.err != nil {
 			c.log.emit("rd.err", "kind", r.err.Error())
 			return nil, r.err
+		}
+		if r.desc != nil {
+			c.log.emit("rd.read", r.desc...)
 		}
 		return r.msg, nil
 	case <-c.closed:
@@ -143,6 +148,9 @@ func vClassify(msg jsonrpc.Message) (kind, id, method, cref, ref string) {
 
 func (c *vConn) Write(ctx context.Context, msg jsonrpc.Message) error {
 	kind, id, method, cref, ref := vClassify(msg)
+	if ref == "" && c.resolve != nil {
+		ref = c.resolve(kind, id, cref)
+	}
 	c.mu.Lock()
 	c.nwrites++
 	w := &vWrite{n: c.nwrites, kind: kind, id: id, method: method, cref: cref, msg: msg, decide: make(chan string, 1)}
@@ -288,6 +296,7 @@ type vRun struct {
 	calls map[string]*vCallState
 	rel   map[string]chan struct{} // handler release gates by request tag
 	reqID map[string]int64         // request tag -> wire id
+	answered map[string]bool
 	nextReq int64
 	hbase int // number of writes performed by the handshake
 }
@@ -327,6 +336,39 @@ func vText(tag string) *CallToolResult {
 
 func (r *vRun) setup(ctx context.Context) error {
 	r.conn = newVConn(r.log)
+	r.conn.resolve = func(kind, id, cref string) string {
+		switch {
+		case kind == "resp":
+			r.mu.Lock()
+			defer r.mu.Unlock()
+			best := ""
+			for tag, wid := range r.reqID {
+				if fmt.Sprint(wid) == id && (best == "" || !strings.HasPrefix(tag, "d")) {
+					// a duplicate (d*) never gets a response of its own while the original is in flight
+					if r.answered[tag] {
+						continue
+					}
+					best = tag
+				}
+			}
+			if best != "" {
+				r.answered[best] = true
+			}
+			return best
+		case kind == "notif" && cref != "":
+			r.conn.mu.Lock()
+			defer r.conn.mu.Unlock()
+			all := append(append([]*vWrite{}, r.conn.written...), r.conn.pending...)
+			for _, w := range all {
+				if w.kind == "call" && w.id == cref {
+					if mm := vRefRe.FindSubmatch(w.msg.(*jsonrpc.Request).Params); mm != nil {
+						return string(mm[1])
+					}
+				}
+			}
+		}
+		return ""
+	}
 	prog := func(tag string, ctx context.Context) { r.handle(ctx, tag, "notifications/progress") }
 	switch r.sc.Side {
 	case "client":
@@ -545,23 +587,29 @@ func (r *vRun) step(st []any) {
 			msg = &jsonrpc.Response{ID: id, Result: json.RawMessage(`{"roots":[{"uri":"file:///` + tag + `"}]}`)}
 		}
 		r.log.emit("rd.deliver", "kind", "resp", "id", fmt.Sprint(id.Raw()), "k", arg(1), "tag", tag, "variant", arg(2))
-		r.conn.rd <- vRead{msg: msg}
+		r.conn.rd <- vRead{msg: msg, desc: []any{"kind", "resp", "k", arg(1), "r", ""}}
 	case "respunknown":
 		id, _ := jsonrpc2.MakeID(float64(777000 + r.log.seq))
 		r.log.emit("rd.deliver", "kind", "resp", "id", fmt.Sprint(id.Raw()), "k", "", "tag", "unknown", "variant", "unknown")
-		r.conn.rd <- vRead{msg: &jsonrpc.Response{ID: id, Result: json.RawMessage(`{"content":[{"type":"text","text":"unknown"}],"roots":[]}`)}}
+		r.conn.rd <- vRead{msg: &jsonrpc.Response{ID: id, Result: json.RawMessage(`{"content":[{"type":"text","text":"unknown"}],"roots":[]}`)},
+			desc: []any{"kind", "resp", "k", "", "r", ""}}
 	case "req", "reqdup":
 		tag, kind := arg(1), arg(2)
 		r.mu.Lock()
+		// wire ids are a function of the name: r<i> -> 5000+i; d<i> re-uses the id of r<i>
 		var wid int64
 		if op == "reqdup" {
-			wid = r.reqID[arg(2)]
 			kind = "call"
+		}
+		if n, err := strconv.Atoi(strings.TrimLeft(tag, "rdn")); err == nil {
+			wid = 5000 + int64(n)
 		} else {
 			r.nextReq++
-			wid = 5000 + r.nextReq
+			wid = 5100 + r.nextReq
 		}
-		r.reqID[tag] = wid
+		if kind == "call" {
+			r.reqID[tag] = wid
+		}
 		r.mu.Unlock()
 		var msg *jsonrpc.Request
 		if kind == "call" {
@@ -577,16 +625,15 @@ func (r *vRun) step(st []any) {
 			msg = &jsonrpc.Request{Method: "notifications/progress", Params: json.RawMessage(`{"progressToken":"tok","progress":1,"message":"` + tag + `"}`)}
 			r.log.emit("rd.deliver", "kind", "notif", "id", "", "r", tag, "dup", false)
 		}
-		r.conn.rd <- vRead{msg: msg}
+		r.conn.rd <- vRead{msg: msg, desc: []any{"kind", kind, "k", "", "r", tag}}
 	case "pcancel":
-		r.mu.Lock()
-		wid, ok := r.reqID[arg(1)]
-		r.mu.Unlock()
-		if !ok {
-			wid = 666000
+		var wid int64 = 666000
+		if n, err := strconv.Atoi(strings.TrimLeft(arg(1), "rd")); err == nil {
+			wid = 5000 + int64(n)
 		}
 		r.log.emit("rd.deliver", "kind", "cancel", "id", fmt.Sprint(wid), "r", arg(1), "dup", false)
-		r.conn.rd <- vRead{msg: &jsonrpc.Request{Method: "notifications/cancelled", Params: json.RawMessage(fmt.Sprintf(`{"requestId":%d,"reason":"verif"}`, wid))}}
+		r.conn.rd <- vRead{msg: &jsonrpc.Request{Method: "notifications/cancelled", Params: json.RawMessage(fmt.Sprintf(`{"requestId":%d,"reason":"verif"}`, wid))},
+			desc: []any{"kind", "cancel", "k", "", "r", arg(1)}}
 	case "hret":
 		ch := r.gate(arg(1))
 		select {
@@ -815,7 +862,7 @@ func vRunScenario(t *testing.T, l *vLog, sc *vScenario) {
 			l.mu.Lock()
 			l.start = time.Now()
 			l.mu.Unlock()
-			r := &vRun{t: t, sc: sc, log: l, calls: map[string]*vCallState{}, rel: map[string]chan struct{}{}, reqID: map[string]int64{}}
+			r := &vRun{t: t, sc: sc, log: l, calls: map[string]*vCallState{}, rel: map[string]chan struct{}{}, reqID: map[string]int64{}, answered: map[string]bool{}}
 			if os.Getenv("VERIF_CS") != "0" {
 				jsonrpc2.VerifSnap = func(c *jsonrpc2.Connection, fn string, s jsonrpc2.VerifSnapshot) {
 					l.emit("cs", "fn", fn, "s", s)
@@ -835,10 +882,11 @@ func vRandomScenario(rnd *rand.Rand, i int) *vScenario {
 		sc.Faults[strconv.Itoa(1+rnd.IntN(6))] = []string{"broken", "rejected", "stall"}[rnd.IntN(3)]
 	}
 	n := 3 + rnd.IntN(10)
-	calls, reqs, closes, waits := 0, 0, 0, 0
-	var liveCalls, liveReqs []string
+	calls, creqs, notifs, dups, closes, waits := 0, 0, 0, 0, 0, 0
+	var liveCalls, liveCallReqs, liveReqs []string
+	cancelled := map[string]bool{}
 	for len(sc.Steps) < n {
-		switch k := rnd.IntN(24); {
+		switch k := rnd.IntN(26); {
 		case k < 4 && calls < 3:
 			calls++
 			c := fmt.Sprintf("k%d", calls)
@@ -848,28 +896,43 @@ func vRandomScenario(rnd *rand.Rand, i int) *vScenario {
 			sc.Steps = append(sc.Steps, []any{"resp", liveCalls[rnd.IntN(len(liveCalls))], []string{"ok", "ok", "err"}[rnd.IntN(3)]})
 		case k < 9 && len(liveCalls) > 0:
 			sc.Steps = append(sc.Steps, []any{"cancel", liveCalls[rnd.IntN(len(liveCalls))]})
-		case k < 13 && reqs < 3:
-			reqs++
-			q := fmt.Sprintf("r%d", reqs)
+		case k < 12 && creqs < 3:
+			creqs++
+			q := fmt.Sprintf("r%d", creqs)
+			liveCallReqs = append(liveCallReqs, q)
 			liveReqs = append(liveReqs, q)
-			sc.Steps = append(sc.Steps, []any{"req", q, []string{"call", "call", "notif"}[rnd.IntN(3)]})
-		case k < 16 && len(liveReqs) > 0:
+			sc.Steps = append(sc.Steps, []any{"req", q, "call"})
+		case k < 14 && notifs < 3:
+			notifs++
+			q := fmt.Sprintf("n%d", notifs)
+			liveReqs = append(liveReqs, q)
+			sc.Steps = append(sc.Steps, []any{"req", q, "notif"})
+		case k < 15 && dups < 2 && dups < creqs:
+			dups++
+			q := fmt.Sprintf("d%d", dups)
+			liveReqs = append(liveReqs, q)
+			sc.Steps = append(sc.Steps, []any{"reqdup", q, fmt.Sprintf("r%d", dups)})
+		case k < 18 && len(liveReqs) > 0:
 			sc.Steps = append(sc.Steps, []any{"hret", liveReqs[rnd.IntN(len(liveReqs))]})
-		case k < 17 && len(liveReqs) > 0:
-			sc.Steps = append(sc.Steps, []any{"pcancel", liveReqs[rnd.IntN(len(liveReqs))]})
-		case k < 18:
+		case k < 19 && len(liveCallReqs) > 0:
+			q := liveCallReqs[rnd.IntN(len(liveCallReqs))]
+			if !cancelled[q] {
+				cancelled[q] = true
+				sc.Steps = append(sc.Steps, []any{"pcancel", q})
+			}
+		case k < 20:
 			sc.Steps = append(sc.Steps, []any{"respunknown"})
-		case k < 19 && closes < 2:
+		case k < 21 && closes < 2:
 			closes++
 			sc.Steps = append(sc.Steps, []any{"close", fmt.Sprintf("c%d", closes)})
-		case k < 20 && waits < 1:
+		case k < 22 && waits < 2:
 			waits++
 			sc.Steps = append(sc.Steps, []any{"wait", fmt.Sprintf("w%d", waits)})
-		case k < 21:
-			sc.Steps = append(sc.Steps, []any{[]string{"eof", "rderr"}[rnd.IntN(2)]})
-		case k < 22 && sc.Gated:
-			sc.Steps = append(sc.Steps, []any{"wret", "any", []string{"ok", "ok", "ok", "broken", "rejected", "stall"}[rnd.IntN(6)]})
 		case k < 23:
+			sc.Steps = append(sc.Steps, []any{[]string{"eof", "rderr"}[rnd.IntN(2)]})
+		case k < 24 && sc.Gated:
+			sc.Steps = append(sc.Steps, []any{"wret", "any", []string{"ok", "ok", "ok", "broken", "rejected", "stall"}[rnd.IntN(6)]})
+		case k < 25:
 			sc.Steps = append(sc.Steps, []any{"sleep", "6"})
 		default:
 			if sc.Gated {
